@@ -93,3 +93,8 @@ package jrpc2
 //@ held eth.(*Block).Tx b props=C18
 // the request counter of a shared client is only touched through sync/atomic
 //@ guarded Client.reqCounter by atomic props=C18
+
+// C18: the background head poller outlives the call that starts it and is
+// shared by every task of the source: it must not carry anything derived from
+// that caller's context (the per-step request counter travels in it).
+//@ detached (*Client).Latest props=C18
